@@ -42,6 +42,7 @@ type Opts struct {
 	ResultNames    []string
 	NoVariableRefs bool     // no name_match (expression) group/label references
 	WebhookCmds    []string // extra mock webhook commands (e.g. casevariant)
+	SubflowHeavy   bool     // many enter_flow actions (several per node, missing and wrong-type targets)
 }
 
 // World is a generated asset document plus the indexes the scenario generator needs.
@@ -259,6 +260,9 @@ func (g *gen) action(flowType string, flowUUIDs []string, flowNames []string) M 
 		}
 	}
 	typ := rapid.SampledFrom(types).Draw(g.t, "actiontype")
+	if g.o.SubflowHeavy && contains(types, "enter_flow") && rapid.IntRange(0, 2).Draw(g.t, "forceenter") == 0 {
+		typ = "enter_flow"
+	}
 	a := M{"uuid": g.uuid("action"), "type": typ}
 	switch typ {
 	case "send_msg":
@@ -341,7 +345,11 @@ func (g *gen) action(flowType string, flowUUIDs []string, flowNames []string) M 
 			a["category"] = rapid.SampledFrom([]string{"Yes", "No", "Maybe", "Red"}).Draw(g.t, "category")
 		}
 	case "enter_flow":
-		if len(flowUUIDs) == 0 || rapid.IntRange(0, 14).Draw(g.t, "missingflow") == 0 {
+		missingOdds := 14
+		if g.o.SubflowHeavy {
+			missingOdds = 5
+		}
+		if len(flowUUIDs) == 0 || rapid.IntRange(0, missingOdds).Draw(g.t, "missingflow") == 0 {
 			a["flow"] = M{"uuid": UUID("flow", 99), "name": "Deleted"}
 		} else {
 			i := rapid.IntRange(0, len(flowUUIDs)-1).Draw(g.t, "enterflow")
